@@ -62,7 +62,67 @@ theorem key_encode_distinct (k : CoseKey) (m : List (Value × Value)) (h : CoseK
     simp only [h2, h4, h5, Bool.not_true, Bool.not_false, Bool.false_eq_true, if_false, if_true] at h <;>
     (refine key _ ?_ ?_ h <;> simp)
 
+/-! ### headers -/
+def hdrKeys7 : List Value := [.int 1, .int 2, .int 3, .int 4, .int 5, .int 6, .int 7]
+
+theorem hdrKeys7_nodup : hdrKeys7.Nodup := by simp [hdrKeys7]
+theorem hdrKeys7_int : ∀ k ∈ hdrKeys7, ∃ n, k = Value.int n := by
+  intro k hk; simp only [hdrKeys7, List.mem_cons, List.not_mem_nil, or_false] at hk
+  rcases hk with rfl | rfl | rfl | rfl | rfl | rfl | rfl <;> exact ⟨_, rfl⟩
+
+theorem typed_keys_sublist (alg crit ct kid iv piv) :
+    List.Sublist ((headerTypedPairs alg crit ct kid iv piv).map (·.1)) [Value.int 1, .int 2, .int 3, .int 4, .int 5, .int 6] := by
+  rw [headerTypedPairs_eq]
+  have := (typedL_labels alg crit ct kid iv piv).map labelValue
+  have e : (pairsToValue (typedL alg crit ct kid iv piv)).map (·.1) = ((typedL alg crit ct kid iv piv).map (·.1)).map labelValue := by
+    simp only [pairsToValue, List.map_map]; rfl
+  rw [e]
+  simpa [labelValue] using this
+
+theorem finish_nodup (m4 : List (Value × Value)) (rest : List (Label × Value)) (m : List (Value × Value))
+    (hs : List.Sublist (m4.map (·.1)) hdrKeys7) (h : headerFinish m4 rest = .ok (.map m)) : (m.map (·.1)).Nodup := by
+  simp only [headerFinish] at h
+  cases hr : restToPairs rest (typedSeen m4) m4 with
+  | ok m' =>
+    rw [hr] at h; simp only [Res.ok.injEq, Value.map.injEq] at h; subst h
+    exact emit_nodup m4 rest m' (hdrKeys7_nodup.sublist hs) (fun k hk => hdrKeys7_int k (hs.subset hk)) hr
+  | err e => rw [hr] at h; cases h
+  | panic p => rw [hr] at h; cases h
+
+/-- **C12, encode side, headers**: for every in-memory `Header` (any counter signatures, any extras), if `to_cbor_value` returns a
+    map, its keys are pairwise distinct. -/
+theorem header_encode_distinct (hd : Header) (m : List (Value × Value)) (h : Header.toValue hd = .ok (.map m)) :
+    (m.map (·.1)).Nodup := by
+  obtain ⟨alg, crit, ct, kid, iv, piv, cs, rest⟩ := hd
+  have c7 : Gen.header_COUNTER_SIG = 7 := by decide
+  have h6 := typed_keys_sublist alg crit ct kid iv piv
+  have h7 : ∀ v : Value, List.Sublist ((headerTypedPairs alg crit ct kid iv piv ++ [(Value.int 7, v)]).map (·.1)) hdrKeys7 := by
+    intro v
+    rw [List.map_append]
+    exact List.Sublist.append h6 (List.Sublist.refl [Value.int 7])
+  have h6' : List.Sublist ((headerTypedPairs alg crit ct kid iv piv).map (·.1)) hdrKeys7 :=
+    h6.trans (by simp [hdrKeys7])
+  rw [Header.toValue.eq_def] at h
+  simp only at h
+  cases cs with
+  | nil => exact finish_nodup _ rest m h6' h
+  | cons s ss =>
+    cases ss with
+    | nil =>
+      simp only [c7] at h
+      cases hv : CoseSignature.toValue s with
+      | ok v => rw [hv] at h; exact finish_nodup _ rest m (h7 v) h
+      | err e => rw [hv] at h; cases h
+      | panic p => rw [hv] at h; cases h
+    | cons s2 ss =>
+      simp only [c7] at h
+      cases hv : sigsToValues (s :: s2 :: ss) with
+      | ok vs => rw [hv] at h; exact finish_nodup _ rest m (h7 _) h
+      | err e => rw [hv] at h; cases h
+      | panic p => rw [hv] at h; cases h
+
 #print axioms emit_nodup
 #print axioms key_encode_distinct
+#print axioms header_encode_distinct
 
 end Coset.Props.C12
